@@ -7,7 +7,7 @@ import numpy as np
 from ..common import Violation, Skip, guard, parse, render, Ref, Invalid
 from ..harness import Part, step_budget
 from .. import gen, gates, gen_emul, refexec
-from ..model import walk
+from ..model import empty_prog, walk
 
 PROPERTY = "C13"
 RULE = (
@@ -58,7 +58,7 @@ def used_exact(case):
         tree = refexec.expand(ref)
     except Invalid:
         raise Skip()
-    nat = gates.make_gates(case.get("gate_seed", 0))
+    nat = gates.make_gates(case.get("gate_seed", 0), reg_gates=True)
     st_, c = guard(parse, text, inject_pulses=nat, what="parse")
     if st_ == "err":
         raise Skip()
@@ -105,6 +105,8 @@ def used_exact(case):
     depth2 = any(m[1] != regname for m in prog["maps"])
     param_q = any(a[0] in ("id", "ix") and (a[1] in m["params"] or (a[0] == "ix" and a[2] in m["params"])) for m in prog["macros"] for s in walk([m["body"]]) if s[0] == "g" for a in s[2])
     classes = ["alias-of-alias"] * depth2 + ["param-carries-qubit"] * param_q + ["statements-checked:%d" % min(nstm, 3)]
+    if any(s_[0] == "g" and s_[1].replace("I_", "") in gates.REG_KINDS for s_ in walk(prog["body"])):
+        classes.append("register-argument")
     if isinstance(prog["reg"][1], str):
         classes.append("reg-let-size")
     return {"nontrivial": depth2 or param_q, "classes": classes, "key": text, "sample": {"text": text, "used": sorted(want)}}
@@ -121,10 +123,71 @@ def _macro_busy(prog, name, seen=None):
 
 
 def used_cases():
-    cfg = gen.Cfg(natives=gen_emul.kinds_table(), reg_args=False, usepulses=False, general_numbers=False, max_depth=4, macro_bias=1)
+    kt = gen_emul.kinds_table()
+    for name, kinds in gates.REG_KINDS.items():
+        kt[name] = list(kinds)
+        kt["I_" + name] = list(kinds)
+    cfg = gen.Cfg(natives=kt, reg_args=False, usepulses=False, general_numbers=False, max_depth=4, macro_bias=1)
+
+    def forwarding(ch):
+        """Macros that FORWARD their parameters through 1-3 levels of other macros and are called
+        many times with different qubits / indices (per-call state of the analysis shows then)."""
+        n = ch.int(2, 6)
+        prog = empty_prog()
+        prog["reg"] = ["q", n]
+        if ch.bool():
+            prog["maps"].append(["a", "q", ["s", ch.int(0, 1), None, ch.pick([1, 1, 2])]])
+        g1 = ch.pick(["U1", "V1", "X", "I_U1"])
+        macros = [{"name": "lv0", "params": ["a"], "body": ["seq", [["g", g1, [["id", "a"]]]]]}]
+        if ch.bool():
+            macros.append({"name": "ix0", "params": ["i"], "body": ["seq", [["g", "U1", [["ix", "q", "i"]]]]]})
+        depth = ch.int(1, 3)
+        for d in range(1, depth + 1):
+            inner = "lv%d" % (d - 1)
+            params = ["a"] if ch.bool() else ["a", "b"]
+            body = [["g", inner, [["id", "a"]]]]
+            if len(params) == 2:
+                body.append(["g", ch.pick([inner, "lv0"]), [["id", "b"]]])
+                if ch.bool():
+                    body.reverse()
+            kind = ch.pick(["seq", "seq", "par"]) if len(params) == 1 or n < 2 else "seq"
+            macros.append({"name": "lv%d" % d, "params": params, "body": [kind, body]})
+        prog["macros"] = macros
+        top = macros[-1]
+        regs = ["q"] + (["a"] if prog["maps"] else [])
+        sizes = {"q": n}
+        if prog["maps"]:
+            _t, start, _stop, step = prog["maps"][0][2]
+            sizes["a"] = len(range(start, n, step))
+
+        def qarg():
+            r = ch.pick([x for x in regs if sizes[x] > 0])
+            return ["ix", r, ch.int(0, sizes[r] - 1)]
+
+        def call():
+            m = ch.pick([top, top, ch.pick(macros)])
+            if m["params"] == ["i"]:
+                return ["g", m["name"], [["n", ch.int(0, n - 1)]]]
+            args = [qarg() for _ in m["params"]]
+            return ["g", m["name"], args]
+
+        body = []
+        for _ in range(ch.int(2, 8)):
+            k = ch.int(0, 5)
+            if k == 0:
+                body.append(["loop", ch.int(1, 3), ["seq", [call() for _ in range(ch.int(1, 2))]]])
+            elif k == 1:
+                body.append(["seq", [call(), call()]])
+            else:
+                body.append(call())
+        prog["body"] = body
+        return {"prog": prog, "gate_seed": 0}
 
     def mk(ch):
-        if ch.bool():
+        k = ch.int(0, 5)
+        if k == 0:
+            return forwarding(ch)
+        if k <= 2:
             c = gen_emul.make_emulable(ch, max_reg=6, with_env=False)
             return {"prog": c["prog"], "gate_seed": c["gate_seed"]}
         prog, _b = gen.make_prog(ch, cfg)
